@@ -20,6 +20,10 @@ std::vector<Util::SmartSet> bwLabels_;                                          
 * `LtsC.ub` is a ghost field: some `SmartSet` operation of some `init()` so far was out of range.  It is sticky (survives
   `clear()`).
 
+`init` is the REPAIRED `init()` (commit 810ab7a9 in /repo, defect D22: `bwLabels_.assign(…)`), for which `ub` is never raised
+(`C16_container_never_overruns`); `initOld` / `stepOld` / `runOld` keep the code as it was (`bwLabels_.resize(…)`) for the
+regression theorems.
+
 Definitions only; proofs in `Vata/Proofs/LtsContainer*.lean`, theorems in `Vata/Properties/C16_Container.lean`.
 -/
 namespace Vata.LC
@@ -127,18 +131,33 @@ def initLabel (states : Nat) (db : Data × List SSet) (a : Nat) : Data × List S
   let p' := (resizeL [] p.1 states, resizeL [] p.2 states)
   (db.1.set a p', initStates states a p'.2 db.2)
 
-/-- `ExplicitLTS::init()`:
+/-- the nested loops of `init()` run on the start value `bw0` of `bwLabels_`:
+```
+for (size_t a = 0; a < data_.size(); ++a) { … }
+```
+There is NO early exit: every call walks all labels and all states again.  The ghost flag `ub` is raised when a set was
+asked for a key outside its range. -/
+def initWith (c : LtsC) (bw0 : List SSet) : LtsC :=
+  let db := (List.range c.data.length).foldl (initLabel c.states) (c.data, bw0)
+  { c with data := db.1, bw := db.2, ub := c.ub || db.2.any (·.bad) }
+
+/-- `ExplicitLTS::init()` as REPAIRED in commit 810ab7a9 (defect D22):
+```
+// build the index anew: sets created by an earlier init() have the range of the labels known then
+bwLabels_.assign(states_, Util::SmartSet(data_.size()));
+for (size_t a = 0; a < data_.size(); ++a) { … }
+```
+`assign(n, v)` discards the old contents: `states_` copies of the empty set whose range is the CURRENT number of labels. -/
+def init (c : LtsC) : LtsC := initWith c (List.replicate c.states (SSet.new c.data.length))
+
+/-- `ExplicitLTS::init()` as it WAS (before 810ab7a9; kept for the regression theorems only):
 ```
 bwLabels_.resize(states_, Util::SmartSet(data_.size()));
 for (size_t a = 0; a < data_.size(); ++a) { … }
 ```
-There is NO early exit: every call walks all labels and all states again.  Sets that exist already keep their range and
-their elements (a key that is new for a state is appended behind the old ones).  The ghost flag `ub` is raised when a set was
-asked for a key outside its range. -/
-def init (c : LtsC) : LtsC :=
-  let bw0 := resizeL (SSet.new c.data.length) c.bw c.states
-  let db := (List.range c.data.length).foldl (initLabel c.states) (c.data, bw0)
-  { c with data := db.1, bw := db.2, ub := c.ub || db.2.any (·.bad) }
+Sets that exist already keep their range and their elements (a key that is new for a state is appended behind the old
+ones; a key beyond the old range is an overrun). -/
+def initOld (c : LtsC) : LtsC := initWith c (resizeL (SSet.new c.data.length) c.bw c.states)
 
 /-- `ExplicitLTS::clear()`: `data_.clear(); bwLabels_.clear(); states_ = 0; transitions_ = 0;` -/
 def clear (c : LtsC) : LtsC := { c with states := 0, transitions := 0, data := [], bw := [] }
@@ -160,6 +179,14 @@ def step (c : LtsC) : Op → LtsC
 
 /-- the object after a history of calls (starting from `ExplicitLTS()`) -/
 def run (h : List Op) : LtsC := h.foldl step (construct 0)
+
+/-- a call on the object of the class as it was before the repair (`initOld`) -/
+def stepOld (c : LtsC) : Op → LtsC
+  | .init => initOld c
+  | op => step c op
+
+/-- the object of the class as it was before the repair after a history of calls -/
+def runOld (h : List Op) : LtsC := h.foldl stepOld (construct 0)
 
 /-- the abstract system of a history: the edges added since the last `clear()` / construction in insertion order, and
 `max(given count, largest state + 1)` -/
@@ -202,7 +229,7 @@ def abs (c : LtsC) : LTS :=
 
 /-! ### the two seeded variants (for the regression theorems only) -/
 
-/-- seeded change `C16-lts-init-early-return`: `if (bwLabels_.size() == states_) return;` in front of `init()` -/
+/-- seeded change `C16-lts-init-early-return`: `if (bwLabels_.size() == states_) return;` in front of (the repaired) `init()` -/
 def initEarly (c : LtsC) : LtsC := if c.bw.length = c.states then c else init c
 
 /-- seeded change `C16-r6-lts-dedup-predecessors`:
@@ -245,5 +272,8 @@ def LtsC.dump (c : LtsC) : String :=
 
 /-- driver entry: run a history and dump every view -/
 def runDump (h : List Op) : String := (run h).dump
+
+/-- the same for the class as it was before the repair (to be compared with a build of the parent of 810ab7a9) -/
+def runOldDump (h : List Op) : String := (runOld h).dump
 
 end Vata.LC
